@@ -75,7 +75,9 @@ def complete_values(model, val, sol_values):
 
 
 HESS = {"trust-constr"}
-BOUNDS_OK = {"L-BFGS-B", "SLSQP", "trust-constr"}
+# SciPy methods that take a bounds argument / that take no derivatives (SciPy's documentation)
+BOUNDS_OK = {"L-BFGS-B", "TNC", "SLSQP", "Powell", "trust-constr", "Nelder-Mead"}
+DERIVATIVE_FREE = {"Nelder-Mead", "Powell", "COBYLA", "COBYQA"}
 
 
 def expected_auto(model):
@@ -182,7 +184,9 @@ def _minimize_call_obligations(call, model, cols, val, pc, tag, form, method, PI
     dref = Ref(K.dual_val(full, cols[0]), 1)
     dref.S(model["obj"])
     ddom = dref.dom
-    if call["jac"] is None:
+    if call["jac"] is None and mpassed in DERIVATIVE_FREE:
+        res.append(proved(f"{tag}: no jac for the derivative-free method {mpassed}"))
+    elif call["jac"] is None:
         res.append(violation(f"{PID}|no-jac|{form}", f"{tag}: no jac passed", dict(payload, kind="raises")))
     else:
         try:
